@@ -27,8 +27,9 @@ class StepBudget(BaseException):
 
 
 class CycleBreakBudget(BaseException):
-    """Raised when cycle breaking (worst-case exponential, outside the engine) exceeds its call budget.
-    Performance is in no property: such runs are inconclusive, never a verdict."""
+    """Raised when cycle breaking (worst-case exponential, outside the engine) or the engine's recursive
+    find_cycle search over siblings (exponential on e.g. test/bigstack.pl under random order) exceeds its
+    call budget. Performance is in no property: such runs are inconclusive, never a verdict."""
 
 
 class Clock(object):
@@ -93,6 +94,21 @@ def _wrap_break_cycles():
 
 
 _wrap_break_cycles()
+
+
+def _wrap_find_cycle():
+    orig = ES.StackBasedEngine.find_cycle
+
+    def find_cycle(self, *a, **k):
+        CLOCK.cb_calls += 1
+        if CLOCK.cb_budget is not None and CLOCK.cb_calls > CLOCK.cb_budget:
+            raise CycleBreakBudget()
+        return orig(self, *a, **k)
+
+    ES.StackBasedEngine.find_cycle = find_cycle
+
+
+_wrap_find_cycle()
 
 
 # ------------------------------------------------------------------------------------------------
